@@ -251,7 +251,7 @@ def legacy_tc():
 
 
 NEW_OPS = [('**', None), ('|>', None), ('@@', 'at_at'), ('===', None), ('xor', None), ('~', None), ('!', None),
-           ('<>', 'ne2'), ('%', None)]
+           ('<>', 'ne2'), ('%', None), ('#', 'hash'), ('#>', None), ('##', 'hh')]
 OT = yfactory.OperatorType
 
 
@@ -276,7 +276,7 @@ def custom_tc(rng, idx):
         typ = rng.choice((OT.BINARY_LEFT_ASSOCIATIVE, OT.BINARY_LEFT_ASSOCIATIVE, OT.BINARY_RIGHT_ASSOCIATIVE,
                           OT.PREFIX_UNARY, OT.SUFFIX_UNARY))
         existing = [(r[0], r[1]) for g in groups for r in g if r[1] != OT.NAME_VALUE_PAIR]
-        ex = rng.choice(existing + [None])
+        ex = None if rng.random() < 0.2 else rng.choice(existing)      # None: relative to the head of the table
         create_group = rng.random() < 0.6
         if typ == OT.SUFFIX_UNARY:
             create_group = True
